@@ -565,7 +565,8 @@ def literal_value(n):
     """Value of a VarDecl/expr when it is a literal (through implicit wrappers,
     unary minus and explicit casts)."""
     if n.get('kind') in ('VarDecl', 'FieldDecl', 'EnumConstantDecl'):
-        c = [x for x in children(n) if not x['kind'].endswith('Attr')]
+        c = [x for x in children(n) if not x['kind'].endswith('Attr')
+             and not x['kind'].endswith('Comment')]
         if not c:
             return None
         return literal_value(c[-1])
